@@ -86,12 +86,18 @@ impl Prop for C14 {
                         pad_lines: vec![],
                         line_style: 0,
                         repeat,
+                        base_ns: 0,
                     }
                 })
                 .boxed();
         }
-        (trace(120), delay(), any::<bool>(), any::<bool>(), seed(), text_extras())
-            .prop_map(|(trace, delay_ns, hand_queue, long, seed, (pad_lines, line_style))| {
+        // mostly relative timestamps; sometimes large absolute ones (beyond 2^53 ns, epoch nanoseconds)
+        let base = prop_oneof![
+            8 => Just(0u64),
+            1 => proptest::sample::select(vec![(1u64 << 53) + 1, 1_700_000_000_123_456_789u64, (1u64 << 60) + 77, (1u64 << 53) - 3]),
+        ];
+        (trace(120), delay(), any::<bool>(), any::<bool>(), seed(), text_extras(), base)
+            .prop_map(|(trace, delay_ns, hand_queue, long, seed, (pad_lines, line_style), base_ns)| {
                 let n = trace.len();
                 SimCase {
                     trace,
@@ -110,6 +116,7 @@ impl Prop for C14 {
                     pad_lines,
                     line_style,
                     repeat: 0,
+                    base_ns,
                 }
             })
             .boxed()
@@ -122,6 +129,9 @@ impl Prop for C14 {
         let exp = expected(c);
         if c.repeat > 1 {
             obs.hit("more_than_250000_packets");
+        }
+        if c.base_ns > (1u64 << 53) {
+            obs.hit("timestamps_above_2_pow_53_ns");
         }
         // classification
         let sent = c.trace.iter().filter(|x| x.1).count();
@@ -189,7 +199,7 @@ impl Prop for C14 {
                 });
                 if let Some(e) = first {
                     // the earliest client packet event corresponds to the earliest trace line
-                    let t0 = c.trace.iter().map(|x| x.0).min().unwrap();
+                    let t0 = c.trace.iter().map(|x| x.0).min().unwrap() + c.base_ns;
                     let a = e.time - std::time::Duration::from_nanos(t0);
                     if a < before || a > after {
                         return fail(
@@ -237,7 +247,7 @@ impl Prop for C14 {
     }
 
     fn required_classes() -> Vec<&'static str> {
-        vec!["burst_of_equal_timestamps", "eleven_packets_within_100ms", "zero_delay", "hand_built_queue", "sustained_two_way_traffic_over_a_second", "input_with_ignored_padding_lines", "more_than_250000_packets", "max_trace_length_usize_max", "input_lines_in_scrambled_order"]
+        vec!["burst_of_equal_timestamps", "eleven_packets_within_100ms", "zero_delay", "hand_built_queue", "sustained_two_way_traffic_over_a_second", "input_with_ignored_padding_lines", "more_than_250000_packets", "max_trace_length_usize_max", "input_lines_in_scrambled_order", "timestamps_above_2_pow_53_ns"]
     }
 
     fn assumptions() -> Vec<&'static str> {
